@@ -39,6 +39,15 @@ static void enumerateAll(const std::function<void(const Spec &)> &f0) {
         }
       }
   }
+  // M: medium-size family (12..40 cells on 4..10 rows), the whole parameter grid; every 7th member also at two efforts
+  {
+    MediumCfg mc;
+    int k = 0;
+    enumerateMedium(mc, [&](const Spec &s) {
+      f0(s);
+      if (k++ % 7 == 0) for (int e : {1, 9}) { Spec d = s; d.effort = e; f0(d); }
+    });
+  }
   // A: primary cross product, 0 deviations
   Cfg a;
   a.rhs = {2, 1};
@@ -101,6 +110,7 @@ static vf::Verdicts eval(const Spec &s, vf::Ctx &ctx) {
   Snapshot after = snapshot(c);
   std::string d = diffStructure(before, after);
   if (!d.empty()) out.push_back({"structure-changed:" + d, "legalize changed " + d + " | " + describe(s)});
+  if (s.cells.size() >= 12) ctx.count(r.threw ? "medium_family_threw" : "medium_family_returned");
   if (!r.threw) {
     ctx.count("returned");
     std::string why = legality(c);
@@ -171,7 +181,7 @@ int main(int argc, char **argv) {
       "(polarity, orientation incl. turned, one fixed cell from a 20-shape menu before/after the movable cells, a cell made fixed, "
       "legalization parameter, effort) of the reduced base, pairs of deviations in thorough; oracle = independent legality test "
       "(row boundary, inside one row, clear of non-degenerate fixed obstructions, pairwise disjoint), unchanged-on-throw and the "
-      "trivial-success clause; non-trivial = legalize moved a cell or threw";
+      "trivial-success clause; plus the medium-size family (1944 circuits of 12..40 cells on 4..10 rows: width, position, obstacle, polarity and net patterns); non-trivial = legalize moved a cell or threw";
   c.bounds = gThorough ? "n<=4, <=2 deviations" : "n<=3, <=1 deviation";
   c.assumptions = {"rows of an instance are pairwise disjoint and of uniform height; zero-width/height rectangles obstruct nothing"};
   c.enumerate = enumerateAll;
